@@ -42,10 +42,19 @@ if $confirmed; then
   mkdir -p $OUT
   cp $DIFF $OUT/patch.diff; cp $DEMO $OUT/demo_test.go; [ -f $SRC/note$N.md ] && cp $SRC/note$N.md $OUT/note.md
   viol=$(grep -m1 "^VIOLATION" /tmp/seed.$$.check)
-  python3 - "$PID" "$N" "$changed" "$rc" "$viol" "$place" > $OUT/meta.json <<'PY'
+  prev=$(cat $OUT/meta.json 2>/dev/null)
+  python3 - "$PID" "$N" "$changed" "$rc" "$viol" "$place" "$prev" > $OUT/meta.json.new <<'PY'
 import json, sys, datetime
-pid, n, changed, rc, viol, place = sys.argv[1:7]
-print(json.dumps({
+pid, n, changed, rc, viol, place, prev = sys.argv[1:8]
+keep = {}
+try:
+    old = json.loads(prev)
+    keep = {k: old[k] for k in ("first_run_before_strengthening",) if k in old}
+    if not keep and old.get("detected_by_quick") is False and int(rc) == 1:
+        keep = {"first_run_before_strengthening": "missed (exit %s) by the check as it stood when the seed arrived; detected after strengthening (see DESIGN.md section 9)" % old.get("quick_check_exit")}
+except Exception:
+    pass
+print(json.dumps({**keep, **{
  "property": pid, "seed": "%s-%s" % (pid, n), "changed_files": changed.split(),
  "demo_package": place,
  "needs_to_manifest": "see note.md",
@@ -55,8 +64,9 @@ print(json.dumps({
                 "VERIF_REPO=<worktree> ./check %s quick -> exit %s" % (pid, rc)],
  "quick_check_exit": int(rc), "quick_check_first_violation": viol,
  "detected_by_quick": int(rc) == 1,
-}, indent=1))
+}}, indent=1))
 PY
+  mv $OUT/meta.json.new $OUT/meta.json
   echo "stored in $OUT"
 fi
 rm -f /tmp/seed.$$.*
